@@ -9,7 +9,8 @@ CFG = {
     'widen_runs': 2,
     'rule': 'every exchange goes through the real HTTP stack (router, middleware chain of httpapi.setupRouter, v1 and v2 handlers) over an '
             'in-process ClusterNode with fixture collections (rich schema: vamana, flat, nested flat, text, string, stringArray, integer, '
-            'float; schema-less; 4096-dimensional; v1 collections; planted NaN fields), '
+            'float; a collection whose seven index properties are all dotted (geo.vec, geo.flat, geo.name, meta.tags, meta.count, meta.score, '
+            'meta.text); schema-less; 4096-dimensional; v1 collections; planted NaN fields), '
             'executed in child processes so that a crash is an observation. Streams: (a) valid requests of every endpoint of both API '
             'versions in JSON and MessagePack, at the documented limits (4096 vectors, searchSize/limit 25/75/100, 10 sort options, plan '
             'limits of a tiny plan: collections, points, point size); (b) structured mutation of EVERY node of 15 valid request bodies '
@@ -20,6 +21,9 @@ CFG = {
             'essential mutations always, the others sampled by seed in the quick tier; headers (missing, ".", "..", separators, unknown '
             'plan), 6 wrong content types, swapped encodings, empty / truncated / trailing-garbage / BOM bodies, 19 wrong method-path '
             'pairs, URI ids of length 1 2 16 17 24 25 and unknown, 13 reserved or odd index names ("_id" "_and" "" "a..b" ".v" "*" ...); '
+            'literal-key stream: insert and update points for each dotted index property carrying a root key literally named like the property '
+            'next to the nested map, each of them well formed / wrong-sized / ill-typed / missing / blocked by a scalar, in all combinations, JSON '
+            'and MessagePack (the nested walk, which the dispatcher follows, decides; 4xx without effect when it is invalid); '
             '(c) random bytes and byte-mutated valid bodies under both content types per endpoint. For each exchange: how each layer sees '
             'the request, the body as decoded by the decoders DecodeValid uses (abstracted for the model), status, recovered panics, '
             'digest of all collections of all users (schemas, point counts, content of all known points) before/after, process death. '
@@ -29,9 +33,11 @@ CFG = {
                     'raw-byte streams only (validated, not proved) -- the property is therefore labelled partial',
                     'valid requests are judged for 5xx only when every number in them is finite and below 1e15 (distances stay finite); '
                     'a crash of the process is judged always',
-                    'CheckCompatibleMap and the index dispatcher (msgpack Decoder.Query) find the same value for an index property: true when '
-                    'all intermediate segments are maps (anything else is refused by CheckCompatibleMap), and for empty segments the dispatcher '
-                    'sees a map, which castDataToArray refuses before any distance is computed',
+                    'that CheckCompatibleMap and the index dispatcher (msgpack Decoder.Query) resolve an index property to the same value is no '
+                    'longer assumed: the translator reads both resolutions off the sources (split on ".", walk maps, no other map access; '
+                    'dec.Query(property)) as side conditions of c18_write_dimension_guard, and the literal-key stream exercises it; left '
+                    'assumed: for a property name with an EMPTY segment Decoder.Query returns the enclosing map, which castDataToArray refuses '
+                    'before any distance is computed',
                     'the streams that exercised the repaired defects stay (offset near MaxInt64, v1 requests on v2 collections, NaN alpha, triggerThreshold '
                     'outside its range, unbuildable product quantizers): they now expect 4xx without effect, resp. 2xx for the offset',
                     'cluster-level refusals are limited to the plan arithmetic (collections, points) modelled in Run_C18.expected; a single node, '
